@@ -3,8 +3,8 @@
    Part A -- settings: what a builder asks for, what a created service stores, and
      verify_service_configuration of builder/{publish_subscribe,event,request_response,blackboard}.rs
      requirement by requirement in source order, incl. the adjustment of zero settings
-     (adjust_configuration_to_meaningful_values / adjust_attributes_to_meaningful_values) with the
-     per-pattern, per-payload-kind, per-operation asymmetry that exists in the source.
+     (adjust_configuration_to_meaningful_values / adjust_attributes_to_meaningful_values): on create and
+     open_or_create, never on open.
    Part B -- protocol: builder/mod.rs create / open / open_or_create and service/mod.rs
      ServiceState::drop as step lists over a small file-system state; one step = one libc call as
      seen by harness/libgate (close / mmap / munmap / opendir / closedir are process local and not
@@ -105,16 +105,13 @@ Definition nodes_index (p : pattern) : nat :=
 
 Inductive opkind := KCreate | KOpen | KOoc.
 
-(* Which public entry point runs the adjustment before using the builder's values.
-   publish_subscribe.rs: Builder<Payload,..>::{create,open_or_create}_with_attributes do, the
-   Builder<[Payload],..> (slice) variants do not; open never does.
-   event.rs: create and open_or_create.  request_response.rs: open_or_create_impl always, create
-   only in the all-fixed-size impl.  blackboard.rs: create_impl. *)
+(* Which public entry point runs the adjustment before using the builder's values: every create and
+   open_or_create of every pattern and payload kind (publish_subscribe.rs / request_response.rs: fixed-size AND
+   slice builders; event.rs; blackboard.rs create_impl -- the blackboard has no open_or_create), open never. *)
 Definition does_adjust (p : pattern) (sized : bool) (k : opkind) : bool :=
   match k with
   | KOpen => false
-  | KCreate => match p with PubSub | ReqRes => sized | Event | Blackboard => true end
-  | KOoc => match p with PubSub => sized | Event | ReqRes => true | Blackboard => false end
+  | KCreate | KOoc => true
   end.
 
 (* TypeDetail: variant (0 fixed size, 1 dynamic), type name, size, alignment *)
